@@ -50,6 +50,7 @@ CONSTANTS Hosts,       \* sequence of hosts
           PerCont,     \* path indexes whose data differs per container (endpoint host:port)
           MaxExpire,   \* bound on service failures (session expiry or crash)
           MaxKill,     \* extension: bound on helper runs (kill_node / unregister_*)
+          HelpKinds,   \* extension: which helpers run, subset of {"kill", "unreg"}
           Ext,         \* extension: the scenario's `ext` record
           MaxPad,      \* generator only: padding steps after quiescence
           SymFirst,    \* TRUE: the first container starts on the first host (the hosts
@@ -521,8 +522,8 @@ Expire(h, word) == CanExpire(Scn, st, h, word) /\ st' = Dirty(ExpireDo(Scn, st, 
 Restart(h, rord) == CanRestart(Scn, st, h, rord) /\ st' = Dirty(RestartDo(Scn, st, h, rord))
 Crash(h) == CanCrash(Scn, st, h) /\ st' = Dirty(CrashDo(Scn, st, h))
 Reap(s, word) == CanReap(Scn, st, s, word) /\ st' = Dirty(ReapDo(Scn, st, s, word))
-KillBegin(h) == CanHelp(Scn, st) /\ st' = KillBeginDo(Scn, st, h)
-UnregBegin(h, a) == CanHelp(Scn, st) /\ st' = UnregBeginDo(Scn, st, h, a)
+KillBegin(h) == "kill" \in HelpKinds /\ CanHelp(Scn, st) /\ st' = KillBeginDo(Scn, st, h)
+UnregBegin(h, a) == "unreg" \in HelpKinds /\ CanHelp(Scn, st) /\ st' = UnregBeginDo(Scn, st, h, a)
 ACall(ord) == InACall(st) /\ ord \in AFireOrders(Scn, st) /\ st' = ACallDo(Scn, st, ord)
 AEnd(x) == x = 1 /\ CanAEnd(st) /\ st' = AEndDo(st)
 Pad(n) == Quiescent(Scn, st) /\ st.pad < MaxPad /\ n = st.pad + 1
